@@ -165,7 +165,8 @@ def matchType (d : Doc) (path : String) (v : V) : Res Unit :=
     | .error e => .error e
     | .ok (numberClass, want) =>
       matchUnwind d path true false fun field =>
-        if numberClass && field.cls == .number then .ok ()
+        if field.isMissing then notMatched      -- a missing field has no type
+        else if numberClass && field.cls == .number then .ok ()
         else if want.contains field.typ then .ok ()
         else notMatched
 
